@@ -979,6 +979,10 @@ def sp_int(it, fr, x=0, *a, **kw):
             raise PyExc(ValueError('cannot convert float NaN to integer'))
         if eng.fork(z3.fpIsInf(x.e)):
             raise PyExc(OverflowError('cannot convert float infinity to integer'))
+        lim = fpv(2.0 ** 63)
+        if eng.fork(z3.And(z3.fpLT(x.e, lim), z3.fpGT(x.e, z3.fpNeg(lim)))):
+            from .tmpl import float_to_int
+            return SInt(float_to_int(x.e), from_float=x.e)
         return SInt(z3.ToInt(z3.fpToReal(z3.fpRoundToIntegral(z3.RTZ(), x.e))), from_float=x.e)
     if isinstance(x, SStr):
         from .strauto import int_literal_ok
